@@ -221,7 +221,7 @@ class Gen:
             opts += [lambda: self.macro(lambda: f"abs({sub()})"), lambda: self.macro(lambda: f"max({sub()}, {sub()})"),
                      lambda: self.macro(lambda: f"min({sub()}, {sub()})")]
         if self.p.on("pow"):
-            opts.append(lambda: (self.feat("float_pow"), f"({sub()} ** {self.choice(['2', '0', '1', '3'])})")[1])
+            opts.append(lambda: (self.feat("float_pow"), f"((({sub()}) % 4.0) ** {self.choice(['2', '0', '1', '3'])})")[1])   # base folded into [0, 4): powers of powers stay float32-exact
         if self.p.on("int_truediv"):
             opts.append(lambda: (self.feat("int_truediv"), f"({self.e_int(depth - 1)} / {self.choice(['1', '2', '4', '8', '-2', '-4'])})")[1])
         if self.p.on("floordiv_mod_neg"):
@@ -525,7 +525,11 @@ class Gen:
         return [("s", f"led.{self.choice(['on', 'off', 'toggle'])}()")]
 
     def s_comment(self, depth, loop_depth, in_main):
-        return [("s", "# " + self.d(st.text(alphabet="abc xyz:()#", max_size=10)))] + self.s_write(depth, loop_depth, in_main)
+        # a comment line may sit at any column: the block's, column 0 ("#<0>"), one level out ("#<->") or deeper ("#<+>"); render() places it
+        where = self.choice(["", "", "#<0>", "#<->", "#<+>"])
+        if where:
+            self.feat("comment_off_column")
+        return [("s", (where or "#") + " " + self.d(st.text(alphabet="abc xyz:()#", max_size=10)))] + self.s_write(depth, loop_depth, in_main)
 
     def s_passs(self, depth, loop_depth, in_main):
         return [("s", self.choice(["pass", f"print({self.int_lit()})"]))]
@@ -912,7 +916,10 @@ class Gen:
 def render(nodes, indent="", unit="    "):
     out = []
     for n in nodes:
-        if n[0] == "s":
+        if n[0] == "s" and n[1][:4] in ("#<0>", "#<->", "#<+>"):
+            col = {"#<0>": "", "#<->": indent[: max(0, len(indent) - len(unit))], "#<+>": indent + unit}[n[1][:4]]
+            out.append(col + "#" + n[1][4:])
+        elif n[0] == "s":
             out.append(indent + n[1])
         else:
             out.append(indent + n[1])
